@@ -62,6 +62,93 @@ pub fn enc_class(srv: &ValveServer) -> String {
     format!("{}/{}/{}", f(&srv.enc[0]), f(&srv.enc[1]), f(&srv.enc[2]))
 }
 
+/// A drawn Valve scenario: entry point, settings, server state and transport.
+pub struct ValveScn {
+    pub call: Call,
+    pub engine: Engine,
+    pub gs: GatheringSettings,
+    pub st: ValveState,
+    pub enc: [vm::KindEnc; 3],
+    pub goldsrc: bool,
+    pub quirk: bool,
+    pub via_game_module: bool,
+    pub ship: bool,
+    pub port: Option<u16>,
+    pub default_port: u16,
+}
+
+impl ValveScn {
+    pub fn server(&self) -> ValveServer {
+        let mut srv = ValveServer::new(self.st.clone());
+        srv.goldsrc_transport = self.goldsrc;
+        srv.split_no_size = self.quirk;
+        srv.enc[0] = self.enc[0].clone();
+        srv.enc[1] = self.enc[1].clone();
+        srv.enc[2] = self.enc[2].clone();
+        srv
+    }
+
+    pub fn addr(&self) -> SocketAddr { SocketAddr::new(SERVER_IP, self.port.unwrap_or(self.default_port)) }
+}
+
+pub fn scenario(t: &mut Tape, max_players: u64) -> ValveScn {
+    let via_game_module = t.draw(CFG, 5) == 0;
+    let (engine, gather, entry, default_port): (Engine, Option<GatheringSettings>, Entry, u16) = if via_game_module {
+        let i = t.draw(CFG, VALVE_GAMES.len() as u64) as usize;
+        let row = &VALVE_GAMES[i];
+        ((row.engine)(), Some((row.gather)()), Entry::ValveGame(i), crate::golden::module_port(row.module, row.port))
+    } else {
+        let engine = match t.draw(CFG, 10) {
+            0 => Engine::Source(None),
+            1 => Engine::new(440),
+            2 => Engine::new(240),
+            3 => Engine::new(2400),
+            4 => Engine::new(632_360),
+            5 => Engine::new_with_dedicated(730, 740),
+            6 => Engine::new(1_874_880),
+            7 => Engine::GoldSrc(false),
+            8 => Engine::GoldSrc(true),
+            _ => Engine::new(t.draw(CFG, 1 << 24) as u32),
+        };
+        let gather = if t.draw(CFG, 3) == 0 {
+            None
+        } else {
+            Some(GatheringSettings { players: gen::toggle(t), rules: gen::toggle(t), check_app_id: t.draw(CFG, 2) == 0 })
+        };
+        (engine, gather, Entry::Valve { engine, gather }, 27015)
+    };
+    let gs = gather.unwrap_or_default();
+    let port = if t.draw(CFG, 2) == 0 { None } else { Some(1024 + t.draw(CFG, 60000) as u16) };
+    let timeout = if via_game_module { None } else { gen::timeouts_long(t, 2) };
+    let goldsrc = matches!(engine, Engine::GoldSrc(_));
+    let obsolete = matches!(engine, Engine::GoldSrc(true));
+    let ship = engine == Engine::new(2400);
+    // the server reports an id the caller expects (main or dedicated), so that the
+    // app-id check cannot be the reason for a failure here (C11 owns that)
+    let appid = match engine {
+        Engine::Source(Some((main, ded))) => {
+            Some(match ded {
+                Some(d) if t.draw(CFG, 2) == 1 => d,
+                _ => main,
+            })
+        }
+        _ => None,
+    };
+    let many_rules = !goldsrc && max_players == 255 && t.draw(CFG, 200) == 199;
+    let mut st = ValveState::generate(t, ship, obsolete, appid, max_players, 300);
+    if many_rules {
+        st.compact_rules(65_535);
+    }
+    st.fit(goldsrc);
+    if engine == Engine::new(240) && t.draw(CFG, 2) == 0 {
+        st.protocol = 7;
+    }
+    let quirk = no_size_quirk(&engine, st.protocol);
+    let enc = [vm::gen_enc(t, goldsrc, !quirk), vm::gen_enc(t, goldsrc, true), vm::gen_enc(t, goldsrc, true)];
+    let call = Call { entry, ip: SERVER_IP, port, default_port, timeout };
+    ValveScn { call, engine, gs, st, enc, goldsrc, quirk, via_game_module, ship, port, default_port }
+}
+
 impl Prop for C02 {
     fn id(&self) -> &'static str { "C02" }
 
@@ -76,69 +163,7 @@ impl Prop for C02 {
 
     fn run_case(&self, _idx: u64, mut t: Tape, detail: bool) -> (CaseOut, Tape) {
         let mut out = CaseOut::default();
-        // ---- scenario
-        let via_game_module = t.draw(CFG, 5) == 0;
-        let (engine, gather, entry, default_port): (Engine, Option<GatheringSettings>, Entry, u16) = if via_game_module {
-            let i = t.draw(CFG, VALVE_GAMES.len() as u64) as usize;
-            let row = &VALVE_GAMES[i];
-            ((row.engine)(), Some((row.gather)()), Entry::ValveGame(i), row.port)
-        } else {
-            let engine = match t.draw(CFG, 10) {
-                0 => Engine::Source(None),
-                1 => Engine::new(440),
-                2 => Engine::new(240),
-                3 => Engine::new(2400),
-                4 => Engine::new(632_360),
-                5 => Engine::new_with_dedicated(730, 740),
-                6 => Engine::new(1_874_880),
-                7 => Engine::GoldSrc(false),
-                8 => Engine::GoldSrc(true),
-                _ => Engine::new(t.draw(CFG, 1 << 24) as u32),
-            };
-            let gather = if t.draw(CFG, 3) == 0 {
-                None
-            } else {
-                Some(GatheringSettings {
-                    players: gen::toggle(&mut t),
-                    rules: gen::toggle(&mut t),
-                    check_app_id: t.draw(CFG, 2) == 0,
-                })
-            };
-            (engine, gather, Entry::Valve { engine, gather }, 27015)
-        };
-        let gs = gather.unwrap_or_default();
-        let port = if t.draw(CFG, 2) == 0 { None } else { Some(1024 + t.draw(CFG, 60000) as u16) };
-        let timeout = if via_game_module { None } else { gen::timeouts_long(&mut t, 2) };
-        let goldsrc = matches!(engine, Engine::GoldSrc(_));
-        let obsolete = matches!(engine, Engine::GoldSrc(true));
-        let ship = engine == Engine::new(2400);
-        // the server reports an id the caller expects (main or dedicated), so that the
-        // app-id check cannot be the reason for a failure here (C11 owns that)
-        let appid = match engine {
-            Engine::Source(Some((main, ded))) => {
-                Some(match ded {
-                    Some(d) if t.draw(CFG, 2) == 1 => d,
-                    _ => main,
-                })
-            }
-            _ => None,
-        };
-        let many_rules = !goldsrc && t.draw(CFG, 200) == 199;
-        let mut st = ValveState::generate(&mut t, ship, obsolete, appid, 255, 300);
-        if many_rules {
-            st.compact_rules(65_535);
-        }
-        st.fit(goldsrc);
-        if engine == Engine::new(240) && t.draw(CFG, 2) == 0 {
-            st.protocol = 7;
-        }
-        if engine == Engine::new(632_360) && st.rules.iter().all(|(k, _)| k != "Test") && t.draw(CFG, 4) == 0 {
-            // the documented RoR2 artefact: present on the wire, removed by the client
-            // (never generated: the property text only promises the state's own rules)
-        }
-        let quirk = no_size_quirk(&engine, st.protocol);
-        let enc = [vm::gen_enc(&mut t, goldsrc, !quirk), vm::gen_enc(&mut t, goldsrc, true), vm::gen_enc(&mut t, goldsrc, true)];
-        let call = Call { entry, ip: SERVER_IP, port, default_port, timeout };
+        let ValveScn { call, engine, gs, st, enc, goldsrc, quirk, via_game_module, ship, port, default_port } = scenario(&mut t, 255);
         let family = if ship { "valve-ship".to_string() } else { call.entry.family() };
         let expected = if via_game_module {
             expected_game_response(&st, &engine, &gs)
